@@ -144,5 +144,6 @@ Fixpoint obs_match (r : @eres Q) (o : obs) {struct r} : bool :=
   | _, _ => false
   end.
 
-Record caseE := { x_v : variants; x_S : obj Q; x_inp : @inp Q; x_out : obs }.
-Definition checkE (k : caseE) : bool := obs_match (element (x_v k) (x_S k) (x_inp k)) (x_out k).
+Record caseE := { x_v : variants; x_S : obj Q; x_ord : option ord; x_cast : bool; x_inp : @inp Q; x_out : obs }.
+Definition checkE (k : caseE) : bool :=
+  obs_match (element_opt (x_v k) (x_ord k) (x_cast k) (x_S k) (x_inp k)) (x_out k).
